@@ -82,7 +82,9 @@ func entrySetup() {
 }
 
 // entryKeys are the chain keys of entryState (update key = pool ed[1], recovery key = pool ed[0]).
-func entryKeys() chainKeys { return chainKeys{Update: pool()[ktEd25519][1], Recovery: pool()[ktEd25519][0]} }
+func entryKeys() chainKeys {
+	return chainKeys{Update: pool()[ktEd25519][1], Recovery: pool()[ktEd25519][0]}
+}
 
 func init() {
 	// {"doc": <document>, "patches": [<patch>...]} -> DocumentComposer.ApplyPatches (+ transformation of the result)
